@@ -40,9 +40,13 @@ class M:
     def __init__(self, name, recv, args, ret, int_result=False):
         self.name, self.recv, self.args, self.ret, self.int_result = name, recv, args, ret, int_result
 
+    provided = None   # "vtbl_only" / "skip_func": a provided method carrying that attribute
+
     def src(self):
         args = "".join(f", a{i}: {t}" for i, (t, _) in enumerate(self.args))
         attr = "#[int_result] " if self.int_result else ""
+        if self.provided:
+            return f"    #[{self.provided}] {attr}fn {self.name}({self.recv}{args}){self.ret[0]} {{ unimplemented!() }}"
         return f"    {attr}fn {self.name}({self.recv}{args}){self.ret[0]};"
 
     def csig(self):
@@ -67,6 +71,11 @@ def gen_method(rng, name):
     return M(name, rng.choice(RECVS), args, ret, ir)
 
 
+def csigs(methods):
+    """the C-visible interface: one entry per method with a vtable slot (a #[skip_func] method has none)"""
+    return [m.csig() for m in methods if m.provided != "skip_func"]
+
+
 def trait_src(name, methods):
     return f"#[cglue_trait]\npub trait {name} {{\n" + "\n".join(m.src() for m in methods) + "\n}\n"
 
@@ -74,11 +83,18 @@ def trait_src(name, methods):
 def edit(rng, methods):
     """returns (kind, edited methods, expectation) with expectation in {'differs', 'same'}"""
     ms = copy.deepcopy(methods)
-    kinds = ["add", "remove", "rename", "reorder", "arg-type", "arg-type-neutral", "ret-type", "receiver", "int-result", "arg-add", "arg-remove", "param-rename-only", "identical"]
+    kinds = ["add", "remove", "rename", "reorder", "arg-type", "arg-type-neutral", "ret-type", "receiver", "int-result", "arg-add", "arg-remove", "param-rename-only", "identical", "add-vtbl-only", "add-skip-func"]
     rng.shuffle(kinds)
     for k in kinds:
         if k == "identical":
             return k, ms, "same"
+        if k in ("add-vtbl-only", "add-skip-func"):
+            # a provided method: with #[vtbl_only] it still has a vtable slot (a C-visible change),
+            # with #[skip_func] it has none (the C-visible interface stays what it was)
+            m = gen_method(rng, "added_p")
+            m.provided = "vtbl_only" if k == "add-vtbl-only" else "skip_func"
+            ms.insert(rng.randint(0, len(ms)), m)
+            return k, ms, ("differs" if k == "add-vtbl-only" else "same")
         if k == "add":
             ms.insert(rng.randint(0, len(ms)), gen_method(rng, "added_m"))
             return k, ms, "differs"
@@ -175,7 +191,7 @@ def make(seed, n_pairs):
         if kind == "param-rename-only":
             b_src = b_src.replace("a0:", "renamed0:")
         # is it really a C-visible difference? (belt and braces on the labels)
-        sig_same = [m.csig() for m in methods] == [m.csig() for m in edited]
+        sig_same = csigs(methods) == csigs(edited)
         assert sig_same == (expect in ("same", "neutral")), (kind, a_src, b_src)
         group = k % 3 == 0
         ga = gb = ""
@@ -286,7 +302,7 @@ fn main() {
             Ok(Info::new(p.expect == "differs").class(format!("edit:{}", p.kind)).class(format!("expect:{}", p.expect)))
         });
     }
-    let code = ctx.finish("pairs (definition, single-edit variant) over traits with 1-4 methods on StableAbi leaf types and groups built from them: edits = add/remove/rename/reorder a method, change one argument or return type (C-visible, or C-neutral such as &str <-> &[u8] or a parameter rename), change receiver kind, toggle int_result, add/remove an argument, add/remove an optional trait, swap mandatory/optional, permute the declared order of optional traits (neutral: they are sorted), and the same edits applied to the trait of an object that a method of the compared type RETURNS (owned or by mutable reference); both sides are expanded in separate modules of a crate built with the layout_checks feature and the Box and ArcBox opaque object/group types are compared with compare_layouts and with VerifyLayout::check (expected type vs found description, also right after a successful check of the same description). Oracle: identical C-visible interface => Valid; different => not Valid; missing description => Unknown; type vs itself => Valid; plus the 9 ordered pairs of the `and` table. Non-trivial = the edited pairs", &["the expected verdict comes from the generator's model of the C-visible signature (method name, receiver, wrapped argument/return types)"], false);
+    let code = ctx.finish("pairs (definition, single-edit variant) over traits with 1-4 methods on StableAbi leaf types and groups built from them: edits = add/remove/rename/reorder a method, change one argument or return type (C-visible, or C-neutral such as &str <-> &[u8] or a parameter rename), change receiver kind, toggle int_result, add/remove an argument, add a provided #[vtbl_only] method (C-visible) or a provided #[skip_func] method (not C-visible), add/remove an optional trait, swap mandatory/optional, permute the declared order of optional traits (neutral: they are sorted), and the same edits applied to the trait of an object that a method of the compared type RETURNS (owned or by mutable reference); both sides are expanded in separate modules of a crate built with the layout_checks feature and the Box and ArcBox opaque object/group types are compared with compare_layouts and with VerifyLayout::check (expected type vs found description, also right after a successful check of the same description). Oracle: identical C-visible interface => Valid; different => not Valid; missing description => Unknown; type vs itself => Valid; plus the 9 ordered pairs of the `and` table. Non-trivial = the edited pairs", &["the expected verdict comes from the generator's model of the C-visible signature (method name, receiver, wrapped argument/return types)"], false);
     std::process::exit(code);
 }
 """
